@@ -170,8 +170,7 @@ theorem lp_parse_serialise (p : Lp) (h : p.WF) (hs : p.opcode = lpStandardReport
       simp only [lpResultValues, List.mem_cons, List.not_mem_nil, or_false] at hres; omega
     have h2 := Nat.mod_eq_of_lt hr2
     have er := enumOf_mem hres
-    generalize gps.asBytes = G at hlen hparse
-    have ht : ∀ t : Bytes, List.take 40 (G ++ t) = G := fun t => by
+    have ht : ∀ t : Bytes, List.take 40 (gps.asBytes ++ t) = gps.asBytes := fun t => by
       rw [← hlen]; exact List.take_left' rfl
     cases rel <;>
     simp [Lp.frame, Lp.payload, Frame.asBytes, Frame.checked, len16, be2, be4, be3, RadioIp.asBytes,
